@@ -275,6 +275,20 @@ def _metrics(spec, ctx, R):
             continue
         p = Q.psnr(y, x.copy())
         ctx.check("psnr_zero_distance", math.isfinite(p), site="differ", detail={"delta": delta, "psnr": p, "kind": kind})
+        # the same pair with an EXPLICIT dynamic range (keyword / positional, float / int / numpy scalars; the data need not lie inside [0, range]:
+        # negative Gaussian values, the constant 3.25 and 8-bit values against range 1.0): still finite, and equal to the definition
+        mse_d = float(np.mean((y - x) ** 2))
+        for di, drv in enumerate((1.0, 255, np.float32(2.0), np.int64(255), 2.0 ** -10, 1e6)):
+            try:
+                pd = Q.psnr(y.copy(), x.copy(), drv) if di % 2 else Q.psnr(y.copy(), x.copy(), data_range=drv)
+            except Exception as ex:
+                ctx.check("psnr_zero_distance", False, site="differ:data_range", detail={"exception": repr(ex)[:200], "data_range": repr(drv)})
+                continue
+            ctx.hit("callform:psnr_data_range_explicit")
+            ctx.check("psnr_zero_distance", math.isfinite(pd), site="differ:data_range", detail={"delta": delta, "psnr": pd, "kind": kind, "data_range": repr(drv)})
+            if mse_d > 0 and math.isfinite(pd):
+                ctx.check("psnr_value", abs(pd - 10 * math.log10(float(drv) ** 2 / mse_d)), 1e-6, site="differ:data_range",
+                          detail={"delta": delta, "psnr": pd, "kind": kind, "data_range": repr(drv)})
         e = Q.relative_error(y, x.copy())
         ctx.check("relerr_zero_distance", e > 0.0, site="differ", detail={"delta": delta, "relative_error": e, "kind": kind})
         if np.any(x):
